@@ -131,6 +131,11 @@ def chanIndex (b : Buf) (c : Int) (i : Int) : Int := bufferIndex b.ch c i
 def chanSample (h : Heap) (b : Buf) (c i : Int) : Option Int := b.sample h (chanIndex b c i)
 def chanSetSample (h : Heap) (b : Buf) (c i : Int) (v : Int) : Option Heap := b.setSample h (chanIndex b c i) v
 
+/-- `C.Channels()`, `C.Length()`, `C.Capacity()` -/
+def chanChannels (_b : Buf) : Nat := 1
+def chanLength (b : Buf) : Nat := b.length
+def chanCapacity (b : Buf) : Nat := b.capacity
+
 /-! ## interleaved and striped readers / writers -/
 
 /-- sequential stores `blk[start+j] := vals[j]` -/
